@@ -28,6 +28,9 @@ def NoPanic {α : Type} (r : Except SErr α) : Prop := ∀ s l, r ≠ .error (.p
 /-- the same for unlocated errors (numeric operations, `evalPrim`, `spreadApply`) -/
 def NoPanicE {α : Type} (r : Except Err α) : Prop := ∀ s, r ≠ .error (.panic s)
 
+/-- an error that is not a panic -/
+def SErr.NP (e : SErr) : Prop := ∀ s, e.1 ≠ .panic s
+
 /-- the outcome of the lexer as the reader surfaces it (`Read.advance`): the tokens, or the
 `SyntaxError` located where the lexer stopped -/
 def lexOutcome (cs : List Char) : Except SErr (List LToken) :=
@@ -160,10 +163,42 @@ structure Store.Safe (σ : Store) : Prop where
 
 namespace Eval
 
-/-- a returned value is safe; a pending tail call carries `ok` code -/
-def TailRes.Safe : TailRes → Prop
-  | .value v => v.Safe
-  | .tailCall f args _ => f.ok = true ∧ Expr.okList args = true
+/-- a value that is safe and whose ids are allocated in `σ` -/
+def VGood (σ : Store) (v : Value) : Prop := v.Safe ∧ σ.AllocIn v
+def VGoodAll (σ : Store) (vs : List Value) : Prop := ∀ v ∈ vs, VGood σ v
+/-- a returned value is good; a pending tail call carries `ok` code and an allocated environment -/
+def TGood (σ : Store) : TailRes → Prop
+  | .value v => VGood σ v
+  | .tailCall f args env => f.ok = true ∧ Expr.okList args = true ∧ env < σ.frames.size
+
+/-- the outcome of an evaluator step: a safe store, no panic, a good result -/
+structure Post {α} (σ' : Store) (r : Except SErr α) (Q : α → Prop) : Prop where
+  store : σ'.Safe
+  np : ∀ er, r = .error er → er.NP
+  val : ∀ a, r = .ok a → Q a
+
+/-- The safety invariant of the evaluator, for all eight functions of its mutual block at one
+amount of fuel: from a safe store, on `ok` code, with good arguments and a procedure in operator
+position (`procArity p ≠ none`: every caller tests it), and — for `applyScheme` — an argument
+count that passed the arity check, the outcome is `Post`: safe store, no panic, good result. -/
+structure SafeAt (fuel : Nat) : Prop where
+  expr : ∀ σ ρ e r σ', evalExpr fuel σ ρ e = (r, σ') → σ.Safe → ρ < σ.frames.size → e.ok = true →
+    Post σ' r (VGood σ')
+  args : ∀ σ ρ es r σ', evalArgs fuel σ ρ es = (r, σ') → σ.Safe → ρ < σ.frames.size → Expr.okList es = true →
+    Post σ' r (VGoodAll σ')
+  proc : ∀ σ p as env r σ', applyProcedure fuel σ p as env = (r, σ') → σ.Safe → VGood σ p → VGoodAll σ as →
+    (procArity p).isSome = true → Post σ' r (VGood σ')
+  loop : ∀ σ p as env r σ', applyLoop fuel σ p as env = (r, σ') → σ.Safe → VGood σ p → VGoodAll σ as →
+    (procArity p).isSome = true → Post σ' r (VGood σ')
+  scheme : ∀ σ lam cenv as r σ', applyScheme fuel σ lam cenv as = (r, σ') → σ.Safe → cenv < σ.frames.size →
+    lam.ok = true → VGoodAll σ as → arityOk lam.formals.fixed.length lam.formals.rest.isSome as.length = true →
+    Post σ' r (TGood σ')
+  defs : ∀ σ ρ ds r σ', evalDefs fuel σ ρ ds = (r, σ') → σ.Safe → ρ < σ.frames.size → Def.okList ds = true →
+    Post σ' r (fun _ => True)
+  body : ∀ σ ρ es r σ', evalBody fuel σ ρ es = (r, σ') → σ.Safe → ρ < σ.frames.size → Expr.okList es = true →
+    es.isEmpty = false → Post σ' r (TGood σ')
+  tail : ∀ σ ρ e r σ', evalTail fuel σ ρ e = (r, σ') → σ.Safe → ρ < σ.frames.size → e.ok = true →
+    Post σ' r (TGood σ')
 
 end Eval
 
